@@ -507,8 +507,11 @@ fn stmt_to_asg_stmt(stmt: synast::Stmt, context: &mut Context) -> Option<asg::St
         }
 
         synast::Stmt::Barrier(barrier) => {
-            let gate_operands = qubit_list_to_asg_texpr(barrier.qubit_list(), context);
-            Some(asg::Stmt::Barrier(asg::Barrier::new(Some(gate_operands))))
+            // `barrier;` with no operands applies to all qubits.
+            let gate_operands = barrier
+                .qubit_list()
+                .map(|qubit_list| qubit_list_to_asg_texpr(Some(qubit_list), context));
+            Some(asg::Stmt::Barrier(asg::Barrier::new(gate_operands)))
         }
 
         synast::Stmt::DelayStmt(delay_stmt) => {
